@@ -25,6 +25,7 @@ type Ctx struct {
 	phiSeen2    map[*ssa.Phi]int
 	phiSeen3    map[*ssa.Phi]int
 	freshListFn map[*ssa.Function]int
+	famMemo     map[string]map[*ssa.Function]bool
 }
 
 func obl(rule, fn, construct, pos, verdict, detail string, witness []string) report.Obl {
